@@ -25,6 +25,9 @@ def oracle_factory(cfg_json, ops, bad_index):
                 # nothing authenticates this input (no protection at all / a tag that cannot verify): if it is taken, a forged
                 # APDU drives the connection and the genuine continuation is at its mercy
                 return f"C07 a forged APDU ({tag}) was accepted: {t['before']} -> {t['after']}"
+            if tag in ("replay", "old-counter"):
+                # C07 counts an APDU that repeats an old invocation counter among the inputs the receive path refuses
+                return f"C07 an APDU repeating an old invocation counter ({tag}) was accepted: {t['before']} -> {t['after']}"
             return None                      # accepted input: C07 says nothing
         cls = res.split()[1]
         if cls in ("decode", "auth") or tag in ("replay", "old-counter"):
